@@ -146,6 +146,12 @@ func runC15(r *rt.Run) {
 		brgs = append(brgs, b)
 	}
 	brgs = append(brgs, 1e-9, 359.999999)
+	// next to the cardinal directions (where sin or cos of the bearing is tiny but not zero)
+	for _, c := range []float64{0, 90, 180, 270} {
+		for _, e := range []float64{1e-7, 1e-6, 2e-5, 5e-5, 1e-4, 1e-3} {
+			brgs = append(brgs, math.Mod(c+e, 360), math.Mod(c-e+360, 360))
+		}
+	}
 	dists := []float64{0, 1e-3, 1, 10, 1e3, 1e5, 1e6, 5e6, 1e7, 1.5e7, 2e7, piR - 1}
 	if th {
 		dists = append(dists, 0.5, 5, 100, 12345.678, 5e4, 5e5, 3e6, 8e6, piR/2, 1.2e7, 1.8e7, piR-1000, piR-0.001)
